@@ -1,7 +1,7 @@
 (** C03 — composition with C01's store theorem: for every history of committed
     write batches, at every committed root (seen from any later database),
     every pair of the abstract state has a verifying proof, absent keys have
-    none, and (guarded) only pairs of the abstract state verify. *)
+    none, and only pairs of the abstract state verify (no condition on the state). *)
 From Coq Require Import List ZArith NArith Bool Lia.
 From C33 Require Import C01.Keys C01.KeysFacts C01.Model C01.Spec C01.Store C01.Inv C01.Proofs
                         C01.ProofsStore C03.Model C03.Spec C03.Proofs C03.ProofsTop.
@@ -41,7 +41,7 @@ Section WithHash.
   Lemma verify_empty_root : forall k v pi, verify_kv H [] k v pi = false.
   Proof.
     intros. rewrite (verify_kv_char H H_len).
-    destruct (beq [] (chain H (leaf_hash H k v) pi)) eqn:B; [|reflexivity].
+    destruct (beq [] (chain H (leaf_hash H k v) pi)) eqn:B; [|apply andb_false_r].
     apply beq_iff in B. apply (f_equal (@length N)) in B.
     rewrite (chain_len H H_len) in B by apply (leaf_hash_len H H_len). discriminate.
   Qed.
@@ -55,8 +55,7 @@ Section WithHash.
          exists pi, get_kv_pair_proof H pf oi k = Some pi /\
                     verify_kv H (byte_root ri) k v pi = true) /\
       (forall pf k, sget (state (firstn i bs)) k = None -> get_kv_pair_proof H pf oi k = None) /\
-      (no_confusable (state (firstn i bs)) = true ->
-       forall k v pi, verify_kv H (byte_root ri) k v pi = true ->
+      (forall k v pi, verify_kv H (byte_root ri) k v pi = true ->
          sget (state (firstn i bs)) k = Some v \/ collision H).
   Proof.
     intros bs i j Hij.
@@ -66,35 +65,24 @@ Section WithHash.
     rewrite <- HEi. destruct oi as [t|]; simpl in *.
     - destruct Gi as [Ho Hs]. split; [|split].
       + intros pf k v G. apply sget_in in G.
-        destruct (complete_present H H_len pf t k v Ho G) as (p & C & V).
+        destruct (complete_present H H_len pf t k v Ho Hs G) as (p & C & V).
         exists (pf_inner p). unfold get_kv_pair_proof. rewrite C. split; [reflexivity|].
         unfold root_hash in V. rewrite (digest_of_symbolic H H_len) in V. exact V.
       + intros pf k G. apply absent_no_proof. apply sget_none_notin. exact G.
-      + intros Hg k v pi V. rewrite <- (digest_of_symbolic H H_len t no_pfx) in V.
-        destruct (sound H H_len _ _ _ _ _ Hs Hg V) as [I|C]; [left|right; exact C].
+      + intros k v pi V. rewrite <- (digest_of_symbolic H H_len t no_pfx) in V.
+        destruct (sound H H_len _ _ _ _ _ Hs V) as [I|C]; [left|right; exact C].
         apply in_elements_sget; assumption.
     - split; [|split].
       + intros pf k v G. discriminate.
       + intros pf k _. reflexivity.
-      + intros _ k v pi V. rewrite verify_empty_root in V. discriminate.
+      + intros k v pi V. rewrite verify_empty_root in V. discriminate.
   Qed.
 End WithHash.
 
-(** both parts of known finding 1 in one statement *)
-Theorem leaf_inner_confusion : forall (H : hashfn), len32 H ->
-  forall pf k v,
-    (forall k0, k0 <> [] -> (length k0 <= 32)%nat ->
-       verify_kv H (digest H pf (Leaf k0 (leaf_hash H k v))) k v [mk_pnode 0 1 k0 []] = true) /\
-    (forall v0, (length v0 <= 32)%nat ->
-       verify_kv H (digest H pf (Leaf (leaf_hash H k v) v0)) k v [mk_pnode 0 1 [] v0] = true).
-Proof.
-  intros H HL pf k v. split.
-  - intros. apply leaf_inner_confusion_value; assumption.
-  - intros. apply leaf_inner_confusion_key; assumption.
-Qed.
-
-(** non-vacuity of [state_proofs]: a two-batch history with a guarded state *)
-Example ex_history_guarded :
-  let bs := [[([97%N], [1%N]); ([98%N], [2%N])]; [([97%N], [3%N]); ([99%N], [4%N])]] in
-  no_confusable (state bs) = true /\ length (state bs) = 3%nat /\ sget (state bs) [97%N] = Some [3%N].
+(** non-vacuity of [state_proofs]: a two-batch history whose state holds a leaf
+    of the shape the fixed finding needed (short key, 32-byte value) *)
+Example ex_history :
+  let bs := [[([97%N], [1%N]); ([98%N], repeat 9%N 32)]; [([97%N], [3%N]); ([99%N], [4%N])]] in
+  length (state bs) = 3%nat /\ sget (state bs) [97%N] = Some [3%N] /\
+  sget (state bs) [98%N] = Some (repeat 9%N 32).
 Proof. vm_compute. repeat split. Qed.
